@@ -1,4 +1,5 @@
 import GcArena.Proofs.Events
+import GcArena.Proofs.SlotFrame
 /-!
 # C01 — No strongly reachable value is ever dropped or freed (GC safety)
 
@@ -65,6 +66,79 @@ theorem deref_reads_stored (c : Ctx) (p i : Nat) (v : Slot) (o : Obj) (ho : c.he
     (hi : i < o.slots.length) : Arena.slotOf (Arena.setSlot c p i v) p i = some v := by
   simp [Arena.slotOf, Arena.setSlot, ho, hi]
 
+/-! ### A dereference reads the value that was stored -/
+
+/-- **Frame for collector steps**: a collector micro-step leaves the slots of every object that is
+    allocated and undestructed afterwards exactly as they were (and such an object was
+    undestructed before). -/
+theorem collector_step_keeps_slots {c c' : Ctx} {root : List Slot} (h : CInv c root []) (m : Micro)
+    (hs : c.micro root m = some c') (i : Nat) (o o' : Obj) (ho : c.heap.get i = some o)
+    (ho' : c'.heap.get i = some o') (hl : o'.live = true) : o'.slots = o.slots ∧ o.live = true := by
+  obtain ⟨o2, ho2, hl2, s⟩ := micro_liveFrame h m hs i o' ho' hl
+  rw [ho] at ho2; cases ho2
+  exact ⟨s, hl2⟩
+
+/-- The same for a whole `Context::do_collection` call — any `RunUntil`, `Stop`, pacing, debt and
+    fault position. -/
+theorem collection_call_keeps_slots {c : Ctx} {root : List Slot} (h : CInv c root []) (ru : RunUntil)
+    (stop : Stop) (fault : TraceFault) (i : Nat) (o o' : Obj) (ho : c.heap.get i = some o)
+    (ho' : (c.doCollection root ru stop fault).1.heap.get i = some o') (hl : o'.live = true) :
+    o'.slots = o.slots ∧ o.live = true := by
+  obtain ⟨o2, ho2, hl2, s⟩ := doCollection_liveFrame h ru stop fault i o' ho' hl
+  rw [ho] at ho2; cases ho2
+  exact ⟨s, hl2⟩
+
+/-- The same for every collection op of the API, on every state an arena can reach: every method,
+    continuation (`drop` / `finalize` / `start_sweeping`), fault position, self- or oracle-driven. -/
+theorem collect_op_keeps_slots (n : Nat) (pre : List Op) (m : Method) (k : Cont) (f : TraceFault)
+    (oracle : Option (List Micro)) :
+    let a := (Arena.new n).run pre
+    a.alive = true →
+    ∀ i o o', a.ctx.heap.get i = some o → (a.step (.collect m k f oracle)).1.ctx.heap.get i = some o' →
+      o'.live = true → o'.slots = o.slots ∧ o.live = true := by
+  intro a halive i o o' ho ho' hl
+  obtain ⟨o2, ho2, hl2, s⟩ := step_collect_liveFrame (inv_run n pre halive) m k f oracle i o' ho' hl
+  rw [ho] at ho2; cases ho2
+  exact ⟨s, hl2⟩
+
+/-- **Slots change only by stores into them.**  On any state an arena can reach: if slot `k` of
+    object `i` reads `v` (because it was just stored there, or because `i` was allocated with it),
+    then after any further operations none of which is a store into `(i, k)` — allocations, stores
+    into other objects and into other slots of `i`, barriers, upgrades, resurrections, root
+    replacement, callbacks ending and beginning, collection calls of every kind — it still reads
+    `v`, for as long as `i` has not been destructed. -/
+theorem slot_reads_back_run (n : Nat) (pre : List Op) (i k : Nat) (v : Slot) (ops : List Op) :
+    let a := (Arena.new n).run pre
+    a.alive = true → Arena.slotOf a.ctx i k = some v →
+    (∀ op, op ∈ ops → op.writesSlot i k = false) →
+    (a.run ops).alive = true →
+    (∃ o', (a.run ops).ctx.heap.get i = some o' ∧ o'.live = true) →
+    Arena.slotOf (a.run ops).ctx i k = some v := by
+  intro a halive hv hops hal hl
+  exact slot_reads_back (inv_run n pre halive) i k v ops hv hops hal hl
+
+/-- **A dereference reads the last value stored.**  On any state an arena can reach, after an
+    accepted store of `v` into slot `k` of object `i` (through any write path) and any further
+    operations none of which stores into `(i, k)`, a read of that slot through a held `Gc` pointer
+    returns `v`.  (Holding the pointer implies `i` is still undestructed: C01 `safety`.) -/
+theorem deref_reads_last_store (n : Nat) (pre : List Op) (path : StorePath) (i k : Nat) (v : Slot)
+    (ops : List Op) :
+    let a := (Arena.new n).run pre
+    let b := (a.step (.store path i k v)).1.run ops
+    a.alive = true → (a.step (.store path i k v)).2 = "ok" →
+    (∀ op, op ∈ ops → op.writesSlot i k = false) →
+    b.alive = true → b.cb ≠ none → b.holds (.strong i) = true →
+    (b.step (.read i k)).2 = Arena.showSlot v := by
+  intro a b halive hok hops hbal hcb hh
+  have h : Inv a := inv_run n pre halive
+  have hal1 : (a.step (.store path i k v)).1.alive = true := alive_of_run_alive hbal
+  have h1 : Inv (a.step (.store path i k v)).1 := inv_step h _ hal1
+  have hb : Inv b := inv_run_from ops h1 hbal
+  have hsafe : Safe b.ctx i := hb.ptrOK_of_holds hh
+  obtain ⟨o', ho', hl', _⟩ := hsafe
+  have hv := slot_reads_back h1 i k v ops (store_sets_slot path i k v hok) hops hbal ⟨o', ho', hl'⟩
+  exact read_returns_slot hbal hcb hh hv
+
 /-! ### Non-vacuity: a concrete history reaching the states the hypotheses talk about -/
 
 /-- root → 1 → 0, object 2 garbage; full mark, sweep started, one sweep step (2 released), then a
@@ -82,5 +156,24 @@ example : ((Arena.new 2).run demo).ctx.phase = .sweep := by decide
 example : ((Arena.new 2).run demo).temps = [.strong 0, .strong 1] := by decide
 example : ((Arena.new 2).run demo).ctx.log = [.freed 2, .dropped 2] := by decide
 example : Accessible ((Arena.new 2).run demo) 0 := .temp 0 (by decide)
+
+/-- `deref_reads_last_store` on a concrete history: root → 0; `strong 1` is stored into slot 0 of
+    object 0; then the callback ends, a whole cycle runs in three collection calls (marking,
+    sweeping started, the rest), interleaved with a callback that allocates and stores into slot 1
+    of the same object; a later callback reads slot 0 and gets `s1`. -/
+def storeDemoPre : List Op := [
+  .enter .mutateRoot, .alloc true [none, none], .rootStore 0 (some (.strong 0)), .alloc true [none] ]
+
+def storeDemoOps : List Op := [
+  .leave,
+  .collect .finishMarking .sweep none none,
+  .enter .mutate, .readRoot 0, .alloc true [none], .store .write 0 1 (some (.strong 2)), .leave,
+  .collect .finishCycle .drop none none,
+  .enter .mutate, .readRoot 0 ]
+
+example : (((((Arena.new 1).run storeDemoPre).step (.store .write 0 0 (some (.strong 1)))).1.run storeDemoOps).step
+    (.read 0 0)).2 = "s1" :=
+  deref_reads_last_store 1 storeDemoPre .write 0 0 (some (.strong 1)) storeDemoOps (by decide) (by decide)
+    (by decide) (by decide) (by decide) (by decide)
 
 end GcArena.C01
